@@ -108,7 +108,7 @@ Section Top.
   Theorem load_asset_atomic md apath name o a c a' c' e :
     load_asset B enc dec md apath name o a c = Ok (a', c', Some e) -> a' = a.
   Proof.
-    destruct o as [| |sets]; cbn [Cache.load_asset]; intros H; try (inversion H; reflexivity).
+    destruct o as [| |sets0|sets]; cbn [Cache.load_asset]; intros H; try (inversion H; reflexivity).
     match type of H with (do r <- ?T; _) = _ => destruct T as [[[x1 c1] e1]| |] end; cbn [bind] in H; try discriminate.
     destruct e1; inversion H; reflexivity.
   Qed.
